@@ -11,35 +11,41 @@
 (* ExtractInnerForReverseSearch the flags IsEmpty, IsPartialCoverage and   *)
 (* the literals (bytes, Complete).                                         *)
 (*                                                                         *)
-(* TLC rebuilds the pattern, computes its bounded language with the        *)
-(* reference semantics                                                     *)
-(*     Ms = all (h, s, e) with h over the pattern's alphabet, |h| <= L,    *)
-(*          e \in EndsP(prog, h, s)                                        *)
-(* (for patterns without look-around only s = 1, e = |h|+1: substrings of  *)
-(* haystacks add nothing then) and checks, on BYTES:                       *)
+(* TLC rebuilds the pattern (FromJson), compiles it with RegexRef!Compile  *)
+(* and enumerates its bounded language                                     *)
+(*     Ms = all <<cl, w, cr>> : the pattern matches the text w (|w| <= L)  *)
+(*          when the symbol before it is cl and the symbol behind it is cr *)
+(*          (0 = none; only 0 for patterns without look-around: contexts   *)
+(*          add nothing then; one symbol decides every look-around)        *)
+(* over the pattern's alphabet (MC_Search's), L <= LCap as far as Budget   *)
+(* search nodes reach, and checks, on BYTES (Symbols!Bytes):               *)
 (*   necessity : a sequence that is neither empty nor partial has, for     *)
 (*               every match text, a literal that is a byte-prefix         *)
 (*               (prefixes) / byte-suffix (suffixes) / byte-substring      *)
 (*               (inner, inner-for-reverse) of it;                         *)
-(*   complete  : a literal marked Complete is, by itself, the text of a    *)
-(*               match (in some one-symbol context when the pattern has    *)
-(*               look-around): decided directly with EndsP on the decoded  *)
-(*               literal, independent of the bound L;                      *)
-(*   longer    : for a Complete PREFIX literal l and every extension x,    *)
-(*               |x| <= XLen, such that no EARLIER literal of the sequence *)
-(*               occurs at l's start in l.x (a complete prefilter reports  *)
-(*               the first literal in sequence order), the leftmost-first  *)
-(*               match anchored there does not extend beyond l.            *)
+(*   complete  : a literal marked Complete (any of the four sequences) is, *)
+(*               by itself, the text of a match in some context: decided   *)
+(*               with EndsP on the decoded literal, independent of L;      *)
+(*   longer    : for a Complete PREFIX literal l, every context cl and     *)
+(*               every extension x, |x| <= XLen, such that l is a match    *)
+(*               there and no EARLIER literal of the sequence occurs at    *)
+(*               l's start in cl.l.x (a complete prefilter reports the     *)
+(*               first literal in sequence order), the leftmost-first      *)
+(*               match anchored there (AnchoredP) does not extend beyond l.*)
+(* A Complete prefix literal that fails to match in SOME context (look-    *)
+(* around) is printed as information only: the statement does not forbid   *)
+(* it and meta/compile.go wraps such prefilters as incomplete.             *)
 (* Nothing else is required of the extractor (which literals, how many,    *)
 (* how long): benign heuristic changes never alarm.                        *)
 (* Every violated obligation is printed with a witness and is confirmed    *)
-(* against package regexp by `vh litconfirm` before it counts.             *)
+(* against package regexp and a fresh run of the extractor by              *)
+(* `vh litconfirm` before it counts.                                       *)
 (***************************************************************************)
 EXTENDS Universe, Json
 
 CONSTANTS LitFile,          \* ndjson written by `vh litexport`
           Shard, NShards,   \* lines are sharded by line index
-          Budget, LCap,     \* bound of the language: |h| <= LenFor(|alphabet|, Budget, LCap)
+          Budget, LCap,     \* bound of the language: texts up to length LCap, at most Budget search nodes per pattern
           XLen              \* longest extension tried behind a Complete prefix literal
 
 Lines == ndJsonDeserialize(LitFile)
@@ -67,20 +73,71 @@ HasNegCls(r) == CASE r.op = "cls" -> r.neg
                   [] OTHER -> HasNegCls(r.a)
 \* can the pattern consume a symbol it does not mention?  (U+FFFD also matches every ill-formed byte)
 Wildish(re) == HasOp(re, {"any"}) \/ HasNegCls(re) \/ sfffd \in SymsIn(re)
-\* MC_Search's alphabet; the multi-byte / ill-formed extras can only occur in a match of a Wild pattern
+\* MC_Search's alphabet; the multi-byte / ill-formed extras can only occur in a match of a Wildish pattern
 LAlpha(re, i) == IF Wildish(re) THEN Alphabet(re, MBFor(i), ILLFor(i)) ELSE Alphabet(re, 0, 0)
 
-\* a match is <<h, s, e>>: the pattern matches h[s..e) (symbol positions) in the context h
-MatchesOf(prog, H, look) ==
-  IF look
-  THEN UNION {UNION {{<<w, s, e>> : e \in EndsP(prog, w, s)} : s \in 1..(Len(w)+1)} : w \in H}
-  ELSE {<<w, 1, Len(w)+1>> : w \in {v \in H : (Len(v)+1) \in EndsP(prog, v, 1)}}
-MText(m) == SubSeq(m[1], m[2], m[3]-1)
+(* The bounded language is enumerated by a depth-first search over match TEXTS that extends a text only while   *)
+(* some thread of the program is still alive (Thompson simulation of RegexRef!Prog: the same instructions, the  *)
+(* same zero-width tests, no priorities - exactly the reachability EndsAcc computes).  A match is <<cl, w, cr>>: *)
+(* the pattern matches the text w when the symbol before it is cl and the symbol behind it is cr (0: none, the   *)
+(* text starts / ends the haystack).  One symbol of context decides every look-around of RegexRef!LookOK, so     *)
+(* for patterns with look-around every cl, cr of the alphabet is tried; without, only 0.                         *)
+(* The search is an accelerator, not an oracle: MC checks it against EndsP on every context of every text of    *)
+(* length <= 2 (SelfCheck), re-validates every reported witness with EndsP, and `vh litconfirm` re-validates it *)
+(* with package regexp.                                                                                         *)
+WordS(s) == s # 0 /\ IsWord(s)
+LookCtx(k, pv, nx) ==
+  CASE k = "bot" -> pv = 0
+    [] k = "eot" -> nx = 0
+    [] k = "bol" -> pv = 0 \/ pv = NL
+    [] k = "eol" -> nx = 0 \/ nx = NL
+    [] k = "wb"  -> WordS(pv) # WordS(nx)
+    [] k = "nwb" -> WordS(pv) = WordS(nx)
+\* the instructions reachable from pc without consuming, between the symbols pv and nx
+RECURSIVE CloAcc(_,_,_,_,_)
+CloAcc(prog, pc, pv, nx, seen) ==
+  IF pc \in seen THEN seen
+  ELSE LET v == seen \cup {pc}
+           i == prog[pc]
+       IN CASE i.op \in {"match", "rune"} -> v
+            [] i.op \in {"nop", "cap"}    -> CloAcc(prog, i.out, pv, nx, v)
+            [] i.op = "look"              -> IF LookCtx(i.k, pv, nx) THEN CloAcc(prog, i.out, pv, nx, v) ELSE v
+            [] i.op = "alt"               -> CloAcc(prog, i.arg, pv, nx, CloAcc(prog, i.out, pv, nx, v))
+RECURSIVE CloSet(_,_,_,_,_)
+CloSet(prog, P, pv, nx, seen) ==
+  IF P = {} THEN seen
+  ELSE LET pc == CHOOSE x \in P : TRUE IN CloSet(prog, P \ {pc}, pv, nx, CloAcc(prog, pc, pv, nx, seen))
 
+\* Breadth-first over text lengths.  F: the live nodes [cl, w, P, pv] of length k (P: the threads waiting behind the
+\* text w, pv: the symbol before them); n: nodes expanded so far; acc: matches found so far.  The search stops at
+\* length cap, when no thread is alive, or when the next level would exceed the node budget: the result is the
+\* COMPLETE set of matches <<cl, w, cr>> with |w| <= L, and L.
+RECURSIVE Bfs(_,_,_,_,_,_,_,_,_)
+Bfs(prog, al, CR, cap, budget, F, k, n, acc) ==
+  LET Clo(f, nx) == IF CR = {0} THEN CloSet(prog, f.P, 0, 0, {})    \* without look-around the context is irrelevant
+                    ELSE CloSet(prog, f.P, f.pv, nx, {})
+      here == UNION {{<<f.cl, f.w, cr>> : cr \in {c \in CR : Len(prog) \in Clo(f, c)}} : f \in F}
+      Step(f, a) == {prog[pc].out : pc \in {x \in Clo(f, a) : prog[x].op = "rune" /\ a \in prog[x].s}}
+      nxt == {g \in {[cl |-> f.cl, w |-> Append(f.w, a), P |-> Step(f, a), pv |-> a] : f \in F, a \in al} : g.P # {}}
+  IN IF k >= cap \/ nxt = {} \/ n + Cardinality(nxt) > budget
+     THEN [ms |-> acc \cup here, L |-> IF k >= cap \/ nxt = {} THEN cap ELSE k]
+     ELSE Bfs(prog, al, CR, cap, budget, nxt, k + 1, n + Cardinality(nxt), acc \cup here)
+\* CX: the contexts tried on either side (0 = none)
+MatchesOf(prog, al, CX, cap, budget) ==
+  Bfs(prog, al, CX, cap, budget, {[cl |-> cl, w |-> <<>>, P |-> {1}, pv |-> cl] : cl \in CX}, 0, Cardinality(CX), {})
+
+Ctx(c) == IF c = 0 THEN <<>> ELSE <<c>>
+\* the match <<cl, w, cr>> as haystack, start and end position
+MHay(m) == Ctx(m[1]) \o m[2] \o Ctx(m[3])
+MStart(m) == Len(Ctx(m[1])) + 1
+MEnd(m) == MStart(m) + Len(m[2])
+\* the same set by RegexRef!EndsP (the definition)
+MatchesRef(prog, al, CX, L) ==
+  {m \in CX \X SeqsUpTo(al, L) \X CX : MEnd(m) \in EndsP(prog, MHay(m), MStart(m))}
 (* --------------------------- bytes and symbols ---------------------------- *)
 IsInfix(l, b) == \E k \in 0..(Len(b) - Len(l)) : SubSeq(b, k+1, k+Len(l)) = l
-Covers(kind, l, b) == CASE kind = "pre" -> IsPrefix(l, b)
-                        [] kind = "suf" -> IsSuffix(l, b)
+Covers(kind, l, b) == CASE kind = "pre" -> Len(l) <= Len(b) /\ SubSeq(b, 1, Len(l)) = l
+                        [] kind = "suf" -> Len(l) <= Len(b) /\ SubSeq(b, Len(b) - Len(l) + 1, Len(b)) = l
                         [] OTHER        -> IsInfix(l, b)
 
 \* one decoding step of Go's utf8.DecodeRune restricted to the symbol table: the longest symbol at byte i (0: none)
@@ -91,8 +148,6 @@ RECURSIVE DecAcc(_,_,_)
 DecAcc(b, i, acc) == IF i > Len(b) THEN acc
                      ELSE LET s == SymAt(b, i) IN IF s = 0 THEN <<0>> ELSE DecAcc(b, i + Width(s), Append(acc, s))
 Decode(b) == DecAcc(b, 1, <<>>)          \* <<0>>: b is not a sequence of table symbols
-
-ShortestOf(S) == LET n == Min({Len(b) : b \in S}) IN CHOOSE b \in S : Len(b) = n
 
 (* ------------------------------- the checks ------------------------------- *)
 Kinds == <<"pre", "suf", "inn", "rev">>
@@ -108,77 +163,96 @@ Bad(kind, api, cfg, h, s, e, l, n) ==
 
 Check(ln) ==
   LET re    == FromJson(ln.re)
+      outs  == ln.outs
       al    == LAlpha(re, ln.i)
-      L     == LenFor(Cardinality(al), Budget, LCap)
       prog  == Compile(re)
       nc    == NCaps(re)
       look  == HasOp(re, {"look"})
-      Ms    == MatchesOf(prog, SeqsUpTo(al, L), look)
-      BS    == {Bytes(MText(m)) : m \in Ms}
-      Wit(b) == CHOOSE m \in Ms : Bytes(MText(m)) = b
+      CX    == IF look THEN al \cup {0} ELSE {0}
+      Srch  == MatchesOf(prog, al, CX, LCap, Budget)
+      L     == Srch.L                                       \* every match text of length <= L is in Ms
+      Ms    == Srch.ms
+      TB    == {<<Bytes(t), t>> : t \in {m[2] : m \in Ms}}     \* the match texts, in bytes and in symbols
+      BS    == {p[1] : p \in TB}
+      \* a witness for the text t: the match with the least context
+      Wit(t) == LET W == {m \in Ms : m[2] = t}
+                    m == CHOOSE m \in W : \A m2 \in W : Len(MHay(m)) <= Len(MHay(m2))
+                IN IF Assert(MEnd(m) \in EndsP(prog, MHay(m), MStart(m)), <<"search and EndsP disagree", ln.pat, m>>)
+                   THEN <<MHay(m), MStart(m), MEnd(m)>> ELSE <<>>
+      \* the search against the definition: all contexts of all texts of length <= 1, no context for length <= 2
+      SelfCheck == LET l1 == IF L < 1 THEN L ELSE 1   l2 == IF L < 2 THEN L ELSE 2 IN
+                   /\ Assert({m \in Ms : Len(m[2]) <= l1} = MatchesRef(prog, al, CX, l1), <<"search # EndsP up to length 1", ln.pat>>)
+                   /\ Assert({m \in Ms : Len(m[2]) <= l2 /\ m[1] = 0 /\ m[3] = 0} = MatchesRef(prog, al, {0}, l2),
+                             <<"search # EndsP up to length 2", ln.pat>>)
       CL    == IF look THEN SeqsUpTo(al, 1) ELSE {<<>>}       \* one symbol of context decides every look-around
-      X     == SeqsUpTo(al, XLen)
-      InLang(d) == \E cl \in CL, cr \in CL : (Len(cl) + Len(d) + 1) \in EndsP(prog, cl \o d \o cr, Len(cl) + 1)
-      \* contexts <<cl, x>> in which l = Bytes(d) is the FIRST literal of the sequence (in sequence order: the order a
-      \* complete prefilter reports in) found at the position behind cl, ...
+      CLX   == CL \X SeqsUpTo(al, XLen)
+      IsMatchAt(h, s, e) == e \in EndsP(prog, h, s)
+      InLang(d) == \E cl \in CL, cr \in CL : IsMatchAt(cl \o d \o cr, Len(cl) + 1, Len(cl) + Len(d) + 1)
+
+      \* the distinct sequences of one kind over all configurations, each reported with the first configuration
+      \* (in the exporter's order: the production configuration first) that produced it
+      QS(k) == {SeqAt(outs[j], k) : j \in DOMAIN outs}
+      CfgOf(q, k) == outs[Min({j \in DOMAIN outs : SeqAt(outs[j], k) = q})].cfgs[1]
+
+      Necessity(q, k) ==
+        IF q.empty \/ q.partial THEN <<>>
+        ELSE LET bad == {p \in TB : ~ \E j \in DOMAIN q.lits : Covers(k, q.lits[j].b, p[1])} IN
+             IF bad = {} THEN <<>>
+             ELSE LET n == Min({Len(p[2]) : p \in bad})
+                      m == Wit((CHOOSE p \in bad : Len(p[2]) = n)[2])
+                  IN << Bad("necessity", APIName(k), CfgOf(q, k), m[1], m[2], m[3], <<>>, Cardinality(bad)) >>
+
+      \* the leftmost-first match starting at the literal d in every context <<cl, x>> (computed once per literal)
+      Anch(d) == {[c |-> c, r |-> AnchoredP(prog, nc, c[1] \o d \o c[2], Len(c[1]) + 1)] : c \in CLX}
+      Smallest(T) == CHOOSE t \in T : \A u \in T : Len(t.c[1]) + Len(t.c[2]) <= Len(u.c[1]) + Len(u.c[2])
       OccursAt(b, hb, off) == off + Len(b) <= Len(hb) /\ SubSeq(hb, off + 1, off + Len(b)) = b
+      \* l = q.lits[j] is the FIRST literal of the sequence (the order a complete prefilter reports in) found there
       FirstAt(q, j, c, d) == LET hb == Bytes(c[1] \o d \o c[2])  off == Len(Bytes(c[1]))
                              IN \A j2 \in 1..(j-1) : ~OccursAt(q.lits[j2].b, hb, off)
-      \* ... and yet the leftmost-first match starting there extends beyond it
-      Longer(q, j, d) == {c \in CL \X X : /\ FirstAt(q, j, c, d)
-                                          /\ LET r == AnchoredP(prog, nc, c[1] \o d \o c[2], Len(c[1]) + 1)
-                                             IN r # <<>> /\ r[2] > Len(c[1]) + Len(d) + 1}
-      NoMatch(d) == {c \in CL \X X : AnchoredP(prog, nc, c[1] \o d \o c[2], Len(c[1]) + 1) = <<>>}
 
-      Necessity(o, k) ==
-        LET q == SeqAt(o, k) IN
-        IF q.empty \/ q.partial THEN <<>>
-        ELSE LET bad == {b \in BS : ~ \E j \in DOMAIN q.lits : Covers(k, q.lits[j].b, b)} IN
-             IF bad = {} THEN <<>>
-             ELSE LET m == Wit(ShortestOf(bad))
-                  IN << Bad("necessity", APIName(k), o.cfgs[1], m[1], m[2], m[3], <<>>, Cardinality(bad)) >>
-
-      CompleteOne(o, k, q, j) ==
-        LET lit == q.lits[j] IN
-        IF ~lit.c THEN <<>>
+      \* <<violations, information>> for literal j of sequence q
+      LitOne(q, k, j) ==
+        LET lit == q.lits[j]  cfg == CfgOf(q, k) IN
+        IF ~lit.c THEN << <<>>, <<>> >>
         ELSE LET d == Decode(lit.b) IN
-             IF d = <<0>> THEN << Bad("complete_undecodable", APIName(k), o.cfgs[1], <<>>, 1, 1, lit.b, 1) >>
-             ELSE IF ~InLang(d) THEN << Bad("complete_notin", APIName(k), o.cfgs[1], d, 1, Len(d) + 1, lit.b, 1) >>
-             ELSE IF k # "pre" THEN <<>>
-             ELSE LET lg == Longer(q, j, d) IN
-                  IF lg = {} THEN <<>>
-                  ELSE LET c == CHOOSE c \in lg : \A c2 \in lg : Len(c[1]) + Len(c[2]) <= Len(c2[1]) + Len(c2[2])
-                           h == c[1] \o d \o c[2]
-                       IN << Bad("complete_longer", APIName(k), o.cfgs[1], h, Len(c[1]) + 1,
-                                 AnchoredP(prog, nc, h, Len(c[1]) + 1)[2], lit.b, Cardinality(lg)) >>
-      Complete(o, k) == LET q == SeqAt(o, k) IN FlattenSeq([j \in DOMAIN q.lits |-> CompleteOne(o, k, q, j)])
-
-      \* information only: a Complete prefix literal that is not a match in every context (look-around)
-      CtxOne(o, lit) ==
-        IF ~lit.c THEN <<>>
-        ELSE LET d == Decode(lit.b) IN
-             IF d = <<0>> \/ ~InLang(d) THEN <<>>
-             ELSE LET nm == NoMatch(d) IN
-                  IF nm = {} THEN <<>>
-                  ELSE LET c == CHOOSE c \in nm : \A c2 \in nm : Len(c[1]) + Len(c[2]) <= Len(c2[1]) + Len(c2[2])
-                       IN << Bad("complete_ctx", "ExtractPrefixes", o.cfgs[1], c[1] \o d \o c[2], Len(c[1]) + 1,
-                                 Len(c[1]) + Len(d) + 1, lit.b, Cardinality(nm)) >>
-      Ctx(o) == IF look THEN FlattenSeq([j \in DOMAIN o.pre.lits |-> CtxOne(o, o.pre.lits[j])]) ELSE <<>>
-
-      Panic(o) == IF o.panic = "" THEN <<>> ELSE << Bad("panic", o.panic, o.cfgs[1], <<>>, 1, 1, <<>>, 1) >>
-      PerOut(o) == Panic(o) \o FlattenSeq([k \in DOMAIN Kinds |-> Necessity(o, Kinds[k]) \o Complete(o, Kinds[k])])
-      NonVac(o) == Cardinality({k \in DOMAIN Kinds : ~(SeqAt(o, Kinds[k]).empty \/ SeqAt(o, Kinds[k]).partial)})
-      NCompl(o) == LET Cnt(q) == Cardinality({j \in DOMAIN q.lits : q.lits[j].c})
-                   IN Cnt(o.pre) + Cnt(o.suf) + Cnt(o.inn) + Cnt(o.rev)
-      Sum(f) == FoldFunction(+, 0, f)
-  IN [fam |-> ln.fam, i |-> ln.i, pat |-> ln.pat, L |-> L, nalpha |-> Cardinality(al),
+             IF d = <<0>> THEN << << Bad("complete_undecodable", APIName(k), cfg, <<>>, 1, 1, lit.b, 1) >>, <<>> >>
+             ELSE IF ~InLang(d) THEN << << Bad("complete_notin", APIName(k), cfg, d, 1, Len(d) + 1, lit.b, 1) >>, <<>> >>
+             ELSE IF k # "pre" THEN << <<>>, <<>> >>
+             ELSE LET A  == Anch(d)
+                      \* contexts where l is a match, the first literal found, and yet something longer is preferred
+                      lg == {t \in A : /\ t.r # <<>> /\ t.r[2] > Len(t.c[1]) + Len(d) + 1
+                                       /\ FirstAt(q, j, t.c, d)
+                                       /\ IsMatchAt(t.c[1] \o d \o t.c[2], Len(t.c[1]) + 1, Len(t.c[1]) + Len(d) + 1)}
+                      \* information only: contexts (look-around) where nothing matches at l although l occurs
+                      nm == IF look THEN {t \in A : t.r = <<>>} ELSE {}
+                  IN << IF lg = {} THEN <<>>
+                        ELSE LET t == Smallest(lg) IN
+                             << Bad("complete_longer", APIName(k), cfg, t.c[1] \o d \o t.c[2], Len(t.c[1]) + 1, t.r[2],
+                                    lit.b, Cardinality(lg)) >>,
+                        IF nm = {} THEN <<>>
+                        ELSE LET t == Smallest(nm) IN
+                             << Bad("complete_ctx", APIName(k), cfg, t.c[1] \o d \o t.c[2], Len(t.c[1]) + 1,
+                                    Len(t.c[1]) + Len(d) + 1, lit.b, Cardinality(nm)) >> >>
+      PerSeq(q, k) == LET per == [j \in DOMAIN q.lits |-> LitOne(q, k, j)]
+                      IN << Necessity(q, k) \o FlattenSeq([j \in DOMAIN per |-> per[j][1]]),
+                            FlattenSeq([j \in DOMAIN per |-> per[j][2]]) >>
+      PerKind(k) == LET qs == SetToSeq(QS(k))  per == [n \in DOMAIN qs |-> PerSeq(qs[n], k)]
+                    IN << FlattenSeq([n \in DOMAIN per |-> per[n][1]]), FlattenSeq([n \in DOMAIN per |-> per[n][2]]) >>
+      All   == [k \in DOMAIN Kinds |-> PerKind(Kinds[k])]
+      Panics == FlattenSeq([j \in DOMAIN outs |-> IF outs[j].panic = "" THEN <<>>
+                                 ELSE << Bad("panic", outs[j].panic, outs[j].cfgs[1], <<>>, 1, 1, <<>>, 1) >>])
+      NonVac == {<<k, q>> \in UNION {{<<k, q>> : q \in QS(Kinds[k])} : k \in DOMAIN Kinds} : ~(q.empty \/ q.partial)}
+      NCompl == FoldFunction(+, 0, [k \in DOMAIN Kinds |->
+                   FoldFunctionOnSet(+, 0, [q \in QS(Kinds[k]) |-> Cardinality({j \in DOMAIN q.lits : q.lits[j].c})], QS(Kinds[k]))])
+  IN IF ~SelfCheck THEN [fam |-> ln.fam] ELSE
+     [fam |-> ln.fam, i |-> ln.i, patb |-> ln.patb, L |-> L, nalpha |-> Cardinality(al),
       nmatch |-> Cardinality(Ms), ntext |-> Cardinality(BS),
-      nouts |-> Len(ln.outs), ncfgs |-> Sum([j \in DOMAIN ln.outs |-> Len(ln.outs[j].cfgs)]),
-      nseqs |-> Sum([j \in DOMAIN ln.outs |-> NonVac(ln.outs[j])]),             \* non-vacuous sequences checked
-      nnec  |-> Sum([j \in DOMAIN ln.outs |-> NonVac(ln.outs[j])]) * Cardinality(BS),   \* (sequence, match text) necessity checks
-      ncompl |-> Sum([j \in DOMAIN ln.outs |-> NCompl(ln.outs[j])]),            \* Complete literals checked
-      bad  |-> FlattenSeq([j \in DOMAIN ln.outs |-> PerOut(ln.outs[j])]),
-      info |-> FlattenSeq([j \in DOMAIN ln.outs |-> Ctx(ln.outs[j])])]
+      nouts |-> Len(outs), ncfgs |-> FoldFunction(+, 0, [j \in DOMAIN outs |-> Len(outs[j].cfgs)]),
+      nseqs |-> Cardinality(NonVac),                        \* distinct non-vacuous sequences checked
+      nnec  |-> Cardinality(NonVac) * Cardinality(BS),      \* (sequence, match text) necessity checks
+      ncompl |-> NCompl,                                    \* Complete literals checked
+      bad  |-> Panics \o FlattenSeq([k \in DOMAIN All |-> All[k][1]]),
+      info |-> FlattenSeq([k \in DOMAIN All |-> All[k][2]])]
 
 (* -------------------------------- driver ---------------------------------- *)
 VARIABLES idx, out
